@@ -148,6 +148,20 @@ def class_specs(seed):
     out.append(mk("id-encoding.no-control-entry", 2, 3, 2, [[0, 0, 1], [1, 1, 2], [0, 2, 0], [1, 0, 2], [0, 1, 0], [1, 2, 1]], True))
     # memory layout of the arrays the screen is built from
     out.append(mk("layout.strided-readonly-fortran-wide-U", 2, 3, 2, sbf, True, layout="strided-readonly"))
+    # item 12 instalments: add(part 1); step; add(part 2); step; step -- no reset: alpha, index tables, design rows must reflect ALL rows
+    out.append(mk("instalments.add-step-add-step", 3, 3, 2, GRID_ROWS, False, n0=6, grow_at=1))
+    out.append(mk("instalments.add-step-add-step", 2, 4, 3, sbf + fbs, True, n0=9, grow_at=1))
+    # item 10 identity-keyed caches: four equal-sized instalments, each a TEMPORARY screen that is dropped right after the call
+    out.append(mk("identity-cache.equal-sized-temporary-screens", 3, 3, 2, GRID_ROWS[:12], False, parts=[3, 6, 9, 12]))
+    out.append(mk("identity-cache.equal-sized-temporary-screens", 2, 4, 1, (sbf + fbs)[:16], True, parts=[4, 8, 12, 16]))
+    # item 11 reuse with a DIFFERENT generator: set_rng(other) between sweeps (tie only: which generator is used is C18's clause)
+    out.append(mk("reuse.other-generator-between-sweeps", 2, 3, 2, sbf, False, swap_rng_at=1))
+    # item 13 integer widths: row numbers beyond int8 / uint8
+    for nrow in (129, 257):
+        wide = [[n % 2, n % 3, (n % 3 + 1 + (n // 3) % 2) % 3] for n in range(nrow)]
+        sp_ = mk("int-width.n_obs=%d" % nrow, 2, 3, 2, wide, True)
+        sp_[1]["sweeps"] = 2
+        out.append(sp_)
     # two-digit ids / names
     big = [[n % 11, n % 12, (5 * n + 3) % 12] for n in range(30)]
     big = [[c, a, (b if b != a else -1)] for c, a, b in big]
@@ -173,6 +187,8 @@ def class_nontrivial(name, spec):
         return all(r[0] != 0 and r[1] != 0 and r[2] != 0 for r in rows) and len(rows) > 0
     if name == "id-encoding.no-control-entry":
         return all(r[1] >= 0 and r[2] >= 0 for r in rows)
+    if name.startswith("int-width."):
+        return len(rows) in (129, 257) and all(r[1] != r[2] for r in rows)
     if name == "size.two-digit-ids":
         return any(r[0] >= 10 for r in rows) and any(max(r[1], r[2]) >= 10 for r in rows)
     return True
@@ -536,6 +552,23 @@ STAGE_OF = {"W0": "_W0_step", "V0": "_V0_step", "W": "_W_step", "V2": "_V2_step"
             "eta1": "_prec_V1_step", "gam": "_prec_W_step"}
 
 
+# Oracles may only demand what the property text states, for inputs inside its quantifier.  These checks concern things the text
+# does not state (which numpy primitive realises a draw / how many primitive draws a block makes, which generator object is used
+# (C18), whether inputs are left untouched, whether an unusual array layout is accepted, internal bookkeeping attributes; for the
+# interaction sampler of the extension also its transform and its row filter (C04)): a difference is reported as a broken TIE (expected behaviour = the documented/modelled one),
+# never as a counterexample with a replay.
+TIE_ONLY = {"C08:draw-kind", "C08:rng", "C08:data-mutated", "C08:input-mutated", "C08:add-observations-raised", "C08:instalments-state",
+            "C08I:draw-kind", "C08I:rng", "C08I:transform", "C08I:rows", "C08I:add-observations-raised"}
+
+
+def report(res, what, case, observed, required, signature):
+    if signature in TIE_ONLY:
+        res.count("tie_only." + signature)
+        res.disagree(signature + " (" + what + ")", case, observed, required)
+    else:
+        res.fail(what, case, observed, required, signature)
+
+
 def far_rows(a, b, scale, tol):
     """indices where |a - b| exceeds the tolerance of `close` (same formula, entrywise)"""
     a = np.asarray(a, dtype=np.float64)
@@ -606,7 +639,7 @@ def check_sweep(spec, rows, sweep_no, before, trace, data, y_ref, fail, counts):
     recs = trace["records"]
     log = [("alpha", "det", [st_alpha["alpha"]], [float(np.mean(np.abs(y_ref))) if N else 0.0], None)]
     if len(recs) != len(sites) - 1:
-        fail("number of random draws in a sweep", len(recs), len(sites) - 1, "C08:order")
+        fail("number of random draws in a sweep", len(recs), len(sites) - 1, "C08:draw-kind")
         return None
     occ1 = np.array([int(np.sum(d1 == m)) for m in range(nT)])
     occ2 = np.array([int(np.sum(d2 == m)) for m in range(nT)])
@@ -623,7 +656,7 @@ def check_sweep(spec, rows, sweep_no, before, trace, data, y_ref, fail, counts):
         sig = "C08:args:" + base
         if skind == "normal":
             if rec["kind"] != "normal" or rec["loc"].shape != () or rec["scale"].shape != () or rec["size"] is not None:
-                fail("draw kind/shape at " + site, rec["kind"], "scalar normal", "C08:order")
+                fail("draw kind/shape at " + site, rec["kind"], "scalar normal", "C08:draw-kind")
                 return None
             lam = P["tau0"] if base == "W0" else P["phi0"][ix] * P["eta0"]
             Q, b, bscale, _qs = gaussian_ref(P, data, base, ix, lam)
@@ -645,7 +678,7 @@ def check_sweep(spec, rows, sweep_no, before, trace, data, y_ref, fail, counts):
             if not has:
                 ok = (rec["kind"] == "normal" and rec["scale"].shape == (D,) and rec["loc"].shape == () and rec["size"] is None)
                 if not ok:
-                    fail("draw kind/shape at " + site, rec["kind"], "normal with vector sd (unit without data)", "C08:order")
+                    fail("draw kind/shape at " + site, rec["kind"], "normal with vector sd (unit without data)", "C08:draw-kind")
                     return None
                 args = [float(rec["loc"])] + rec["scale"].tolist()
                 ref = [0.0] + (1.0 / np.sqrt(lam)).tolist()
@@ -654,7 +687,7 @@ def check_sweep(spec, rows, sweep_no, before, trace, data, y_ref, fail, counts):
                 log.append((site, "normalVec", args, ref, rec["value"].tolist()))
             else:
                 if rec["kind"] != "mvn" or rec["Q"].shape != (D, D) or rec["b"].shape != (D,):
-                    fail("draw kind/shape at " + site, rec["kind"], "sample_mvn_from_precision(Q[D,D], mu_part[D])", "C08:order")
+                    fail("draw kind/shape at " + site, rec["kind"], "sample_mvn_from_precision(Q[D,D], mu_part[D])", "C08:draw-kind")
                     return None
                 if not rec["rng_is_proxy"]:
                     fail("sample_mvn_from_precision is not given the model's generator", "rng is not the generator", "rng=self.rng", "C08:rng")
@@ -686,13 +719,13 @@ def check_sweep(spec, rows, sweep_no, before, trace, data, y_ref, fail, counts):
                 log.append((site, "mvn", args, scale, value))
         else:
             if rec["kind"] != "gamma" or rec["size"] is not None:
-                fail("draw kind/shape at " + site, rec["kind"], "gamma", "C08:order")
+                fail("draw kind/shape at " + site, rec["kind"], "gamma", "C08:draw-kind")
                 return None
             prev = recs[ri - 1]["value"] if base in ("phi0", "eta0", "phi2", "eta2", "phi1", "eta1") else None
             shape_ref, rate_ref, rscale, stab = gamma_ref(base, ix, P, prev, data, nC, nT, D, a0, b0)
             want_shape = np.shape(rate_ref)
             if rec["shape"].shape != () or rec["scale"].shape != want_shape:
-                fail("draw kind/shape at " + site, [list(rec["shape"].shape), list(rec["scale"].shape)], [[], list(want_shape)], "C08:order")
+                fail("draw kind/shape at " + site, [list(rec["shape"].shape), list(rec["scale"].shape)], [[], list(want_shape)], "C08:draw-kind")
                 return None
             scale_ref = 1.0 / (np.asarray(rate_ref) + stab)
             args = [float(rec["shape"])] + np.asarray(rec["scale"]).ravel().tolist()
@@ -904,26 +937,71 @@ def perturb_state(w, rng, N, nT, occ, distinct=False):
 EXPORT_FIELDS = ["W", "W0", "V2", "V1", "V0"]
 
 
-def run_case(spec, res, queue, report=True):
+def bookkeeping(w):
+    """every non-array, non-float attribute of the sampler (data holders, index tables, counts), by introspection"""
+    out = {}
+    for k, v in vars(w).items():
+        if isinstance(v, np.ndarray) or isinstance(v, (float, np.floating)) or k in ("rng", "num_mcmc_steps", "last_rmse") or callable(v):
+            continue
+        try:
+            if isinstance(v, dict):
+                out[k] = {int(a): [int(i) for i in b] for a, b in v.items() if len(b)}
+            elif isinstance(v, (list, tuple)):
+                out[k] = [float(x) for x in v]
+            elif isinstance(v, (int, str, bool, type(None))):
+                out[k] = v
+        except Exception:      # noqa: BLE001 -- an attribute of a shape this canonical form does not know: not compared
+            pass
+    return out
+
+
+def bookkeeping_differs(a, b):
+    """attributes present on BOTH samplers (a cache attribute created by a step exists on one side only and is not a difference)"""
+    return sorted(k for k in set(a) & set(b) if a[k] != b[k])
+
+
+def instalment_state_check(spec, w, fail):
+    """after the second add_observations: the bookkeeping equals that of a fresh sampler given all rows in ONE call"""
+    fresh, _ = build_model(spec)
+    a, b = bookkeeping(w), bookkeeping(fresh.wrapped_model)
+    diff = bookkeeping_differs(a, b)
+    if diff:
+        fail("bookkeeping after instalments differs from a single add_observations", {k: str(a.get(k))[:120] for k in diff},
+             {k: str(b.get(k))[:120] for k in diff}, "C08:instalments-state")
+
+
+def run_case(spec, res, queue):
     """runs the real sampler on one generated case; appends (line, compare-callback) to `queue`"""
     from scipy.special import logit
     case = {"case_seed": spec["case_seed"], "stream": spec["stream"], "max_sweeps": spec["max_sweeps"], "nC": spec["nC"],
             "nT": spec["nT"], "D": spec["D"], "rows": spec["rows"], "sweeps": spec["sweeps"]}
-    for k in ("fixed", "grid", "n0", "grow_at", "reset_at", "klass", "class_index", "tperm", "sperm", "tmap_row_order", "layout"):
+    for k in ("fixed", "grid", "n0", "grow_at", "reset_at", "klass", "class_index", "tperm", "sperm", "tmap_row_order", "layout", "parts", "swap_rng_at"):
         if spec.get(k) is not None:
             case[k] = spec[k]
     rng = random.Random(spec["case_seed"] ^ 0x5EED)
     n_now = spec.get("n0", len(spec["rows"])) if spec.get("grow_at") is not None else len(spec["rows"])
+    if spec.get("parts"):
+        n_now = spec["parts"][0]
     try:
         model, screen = build_model(spec, n_now)
     except RuntimeError:
         raise
     except Exception as e:      # noqa: BLE001 -- the unchanged tree accepts every generated screen
-        res.fail("building the model / add_observations raised on a valid screen", case, "%s: %s" % (type(e).__name__, str(e)[:200]),
+        report(res, "building the model / add_observations raised on a valid screen", case, "%s: %s" % (type(e).__name__, str(e)[:200]),
                  "add_observations accepts the screen", "C08:add-observations-raised")
         return
     w = model.wrapped_model
     nC, nT, D = spec["nC"], spec["nT"], spec["D"]
+    if spec.get("parts"):
+        try:
+            for a_, b_ in zip(spec["parts"][:-1], spec["parts"][1:]):
+                # a temporary of the same size as the previous one, not referenced after the call (its address is free for the next)
+                model.add_observations(build_screen(spec, spec["rows"][a_:b_], spec["obs"][a_:b_]))
+        except Exception as e:      # noqa: BLE001
+            report(res, "add_observations raised on a valid screen", case, "%s: %s" % (type(e).__name__, str(e)[:200]), "accepted", "C08:add-observations-raised")
+            return
+        n_now = spec["parts"][-1]
+        screen = build_screen(spec, spec["rows"][:n_now], spec["obs"][:n_now])
     proxy = Proxy(rng.randrange(2 ** 32), spec["wild"], None)
     model.set_rng(proxy)
     fail_rng = random.Random(rng.randrange(2 ** 32))
@@ -931,7 +1009,7 @@ def run_case(spec, res, queue, report=True):
 
     def fail(what, observed, required, signature):
         failures.append(signature)
-        res.fail(what, case, observed, required, signature)
+        report(res, what, case, observed, required, signature)
 
     def current_data():
         rows = spec["rows"][:n_now]
@@ -944,10 +1022,10 @@ def run_case(spec, res, queue, report=True):
         ok = True
         # float32 rounding of the observation itself moves logit(p) by ~6e-8 / (p (1 - p)) <= 6e-6
         if len(y) != N or (N and not close(y, y_ref, np.abs(y_ref) + 1.0)):
-            res.fail("stored observations are not logit(clip(obs, 0.01, 0.99))", case, y.tolist()[:8], y_ref.tolist()[:8], "C08:transform")
+            report(res, "stored observations are not logit(clip(obs, 0.01, 0.99))", case, y.tolist()[:8], y_ref.tolist()[:8], "C08:transform")
             ok = len(y) == N
         if list(w.cline) != cl.tolist() or list(w.dd1) != d1.tolist() or list(w.dd2) != d2.tolist():
-            res.fail("training tuples differ from the screen rows", case, [list(map(int, w.cline)), list(map(int, w.dd1)), list(map(int, w.dd2))], rows, "C08:rows")
+            report(res, "training tuples differ from the screen rows", case, [list(map(int, w.cline)), list(map(int, w.dd1)), list(map(int, w.dd2))], rows, "C08:rows")
             ok = False
         return ok, rows, N, (y, cl, d1, d2), y_ref
 
@@ -978,6 +1056,7 @@ def run_case(spec, res, queue, report=True):
             screen = build_screen(spec, spec["rows"], spec["obs"])
             ok, rows, N, data, y_ref = current_data()
             res.count("history.rows_added_between_sweeps")
+            instalment_state_check(spec, w, fail)
             if spec.get("reset_at") == sweep_no:
                 res.count("class.object-reuse.reset_model-then-more-rows")
             if not ok:
@@ -995,10 +1074,20 @@ def run_case(spec, res, queue, report=True):
                 # keep the randomised state one the sampler could be in: its cache agrees with its parameters (a sampler that
                 # maintains Mu purely incrementally must not be flagged because the harness wrote parameters behind its back)
                 w.Mu = mu_scratch(snap(w), data[1], data[2], data[3]).astype(np.float32)
+        if oracle_sweep and spec.get("swap_rng_at") == sweep_no:
+            old_proxy, n_old = proxy, len(proxy.records)
+            proxy = Proxy(rng.randrange(2 ** 32), spec["wild"], None)
+            model.set_rng(proxy)
+        else:
+            old_proxy = None
         y, cl, d1, d2 = data
         before = snap(w)
         tuples_before = (list(map(float, w.y)), list(map(int, w.cline)), list(map(int, w.dd1)), list(map(int, w.dd2)))
         trace = run_sweep(model, proxy, fail_rng, spec["fail_p"] if oracle_sweep else 0.0, data)
+        if old_proxy is not None:
+            res.count("class.reuse.other-generator.draws-by-new-generator", len(proxy.records))
+        if old_proxy is not None and len(old_proxy.records) != n_old:
+            fail("after set_rng(other) the sweep still drew from the previous generator", len(old_proxy.records), 0, "C08:rng")
         tuples_after = (list(map(float, w.y)), list(map(int, w.cline)), list(map(int, w.dd1)), list(map(int, w.dd2)))
         if tuples_after != tuples_before:
             fail("a sampler step modified the training tuples (y, cline, dd1, dd2)", [t[:8] for t in tuples_after], [t[:8] for t in tuples_before], "C08:data-mutated")
@@ -1138,17 +1227,19 @@ def igen_spec(seed, max_sweeps, selfpair=False):
             "max_sweeps": max_sweeps, "sweeps": rng.randint(1, max_sweeps)}
 
 
-def ibuild(spec):
+def ibuild(spec, n0=None):
+    """interaction model with the first n0 combination rows (default all) -- plus the screen's non-combination rows -- added"""
     from batchie.data import ExperimentSpace
     from batchie.models.sparse_combo_interaction import SparseDrugComboInteraction
     tmap, smap = maps_of(spec)
     model = SparseDrugComboInteraction(experiment_space=ExperimentSpace(treatment_mapping=tmap, sample_mapping=smap),
                                        n_embedding_dimensions=spec["D"])
-    rows, obs = [list(r) for r in spec["rows"]], list(spec["obs"])
+    n0 = len(spec["rows"]) if n0 is None else n0
+    rows, obs = [list(r) for r in spec["rows"][:n0]], list(spec["obs"][:n0])
     allrows, allobs = list(rows), list(obs)
     for pos, r in sorted(spec.get("extra", []), key=lambda e: -e[0]):
-        allrows.insert(pos, r)
-        allobs.insert(pos, 0.5)
+        allrows.insert(min(pos, len(allrows)), r)
+        allobs.insert(min(pos, len(allobs)), 0.5)
     screen = build_screen(spec, allrows, allobs)
     train_screen = build_screen(spec, rows, obs)
     if screen is not None:
@@ -1214,7 +1305,7 @@ def icheck_sweep(spec, trace, data, fail, res):
             trace[key] = [trace[key][i] for i in keep]
     sites, recs = isite_list(nC, nT, D), trace["records"]
     if len(recs) != len(sites):
-        fail("number of random draws in an interaction sweep", len(recs), len(sites), "C08I:order")
+        fail("number of random draws in an interaction sweep", len(recs), len(sites), "C08I:draw-kind")
         return None
     occ1 = np.array([int(np.sum(d1 == m)) for m in range(nT)])
     occ2 = np.array([int(np.sum(d2 == m)) for m in range(nT)])
@@ -1235,7 +1326,7 @@ def icheck_sweep(spec, trace, data, fail, res):
             has = (occC[ix] > 0) if base == "W" else (occ1[ix] + occ2[ix] > 0)
             if not has:
                 if not (rec["kind"] == "normal" and rec["scale"].shape == (D,) and rec["loc"].shape == () and rec["size"] is None):
-                    fail("draw kind/shape at " + site, rec["kind"], "normal with vector sd (unit without data)", "C08I:order")
+                    fail("draw kind/shape at " + site, rec["kind"], "normal with vector sd (unit without data)", "C08I:draw-kind")
                     return None
                 args = [float(rec["loc"])] + rec["scale"].tolist()
                 ref = [0.0] + (1.0 / np.sqrt(lam)).tolist()
@@ -1244,7 +1335,7 @@ def icheck_sweep(spec, trace, data, fail, res):
                 log.append((site, "normalVec", args, ref, rec["value"].tolist()))
             else:
                 if rec["kind"] != "mvn" or rec["Q"].shape != (D, D) or rec["b"].shape != (D,):
-                    fail("draw kind/shape at " + site, rec["kind"], "sample_mvn_from_precision(Q[D,D], mu_part[D])", "C08I:order")
+                    fail("draw kind/shape at " + site, rec["kind"], "sample_mvn_from_precision(Q[D,D], mu_part[D])", "C08I:draw-kind")
                     return None
                 if not rec["rng_is_proxy"]:
                     fail("sample_mvn_from_precision is not given the model's generator", "rng is not the generator", "rng=self.rng", "C08I:rng")
@@ -1254,12 +1345,12 @@ def icheck_sweep(spec, trace, data, fail, res):
                 log.append((site, "mvn", rec["Q"].ravel().tolist() + rec["b"].tolist(), [qs] * (D * D) + bscale.tolist(), value))
         else:
             if rec["kind"] != "gamma" or rec["size"] is not None:
-                fail("draw kind/shape at " + site, rec["kind"], "gamma", "C08I:order")
+                fail("draw kind/shape at " + site, rec["kind"], "gamma", "C08I:draw-kind")
                 return None
             prev = recs[ri - 1]["value"] if base in ("phi2", "eta2") else None
             shape_ref, rate_ref, rscale, stab = gamma_ref(base, ix, P, prev, data, nC, nT, D, 1.1, 1.1, mu_scratch=imu)
             if rec["shape"].shape != () or rec["scale"].shape != np.shape(rate_ref):
-                fail("draw kind/shape at " + site, [list(rec["shape"].shape), list(rec["scale"].shape)], [[], list(np.shape(rate_ref))], "C08I:order")
+                fail("draw kind/shape at " + site, [list(rec["shape"].shape), list(rec["scale"].shape)], [[], list(np.shape(rate_ref))], "C08I:draw-kind")
                 return None
             scale_ref = 1.0 / (np.asarray(rate_ref) + stab)
             args = [float(rec["shape"])] + np.asarray(rec["scale"]).ravel().tolist()
@@ -1315,38 +1406,66 @@ def irun_case(spec, res, iqueue):
     import batchie.models.sparse_combo_interaction as sci
     from scipy.special import logit
     case = {k: spec[k] for k in ("stream", "case_seed", "max_sweeps", "nC", "nT", "D", "rows", "sweeps")}
+    for k in ("n0", "iclass"):
+        if spec.get(k) is not None:
+            case[k] = spec[k]
     rng = random.Random(spec["case_seed"] ^ 0x1A7E)
     try:
-        model, screen = ibuild(spec)
+        model, screen = ibuild(spec, spec.get("n0"))
     except RuntimeError:
         raise
     except Exception as e:      # noqa: BLE001
-        res.fail("interaction sampler: add_observations raised on a valid screen", case, "%s: %s" % (type(e).__name__, str(e)[:200]), "accepted", "C08I:add-observations-raised")
+        report(res, "interaction sampler: add_observations raised on a valid screen", case, "%s: %s" % (type(e).__name__, str(e)[:200]), "accepted", "C08I:add-observations-raised")
         return
     w = model.wrapped_model
-    rows = spec["rows"]
-    N = len(rows)
-    y = np.array(w.y, dtype=np.float64)
-    cl = np.array([r[0] for r in rows], dtype=int)
-    d1 = np.array([r[1] for r in rows], dtype=int)
-    d2 = np.array([r[2] for r in rows], dtype=int)
-    y_ref = logit(np.array(spec["obs"], dtype=np.float64)) if N else np.zeros(0)
 
     def fail(what, observed, required, signature):
-        res.fail(what, case, observed, required, signature)
+        report(res, what, case, observed, required, signature)
 
-    if len(y) != N or list(w.cline) != cl.tolist() or list(w.dd1) != d1.tolist() or list(w.dd2) != d2.tolist():
-        fail("interaction sampler: training tuples are not the observed combination rows of the screen",
-             [list(map(int, w.cline)), list(map(int, w.dd1)), list(map(int, w.dd2))], rows, "C08I:rows")
+    def current(n_rows):
+        rows = spec["rows"][:n_rows]
+        N = len(rows)
+        y = np.array(w.y, dtype=np.float64)
+        cl = np.array([r[0] for r in rows], dtype=int)
+        d1 = np.array([r[1] for r in rows], dtype=int)
+        d2 = np.array([r[2] for r in rows], dtype=int)
+        y_ref = logit(np.array(spec["obs"][:n_rows], dtype=np.float64)) if N else np.zeros(0)
+        if len(y) != N or list(w.cline) != cl.tolist() or list(w.dd1) != d1.tolist() or list(w.dd2) != d2.tolist():
+            fail("interaction sampler: training tuples are not the observed combination rows of the screen",
+                 [list(map(int, w.cline)), list(map(int, w.dd1)), list(map(int, w.dd2))], rows, "C08I:rows")
+            return None
+        if N and not close(y, y_ref, np.abs(y_ref) + 1.0):
+            fail("interaction sampler: stored observations are not logit(obs)", y.tolist()[:8], y_ref.tolist()[:8], "C08I:transform")
+        return rows, N, (y, cl, d1, d2)
+
+    cur = current(spec.get("n0", len(spec["rows"])))
+    if cur is None:
         return
-    if N and not close(y, y_ref, np.abs(y_ref) + 1.0):
-        fail("interaction sampler: stored observations are not logit(obs)", y.tolist()[:8], y_ref.tolist()[:8], "C08I:transform")
-    data = (y, cl, d1, d2)
+    rows, N, data = cur
+    y, cl, d1, d2 = data
     proxy = Proxy(rng.randrange(2 ** 32), spec["wild"], None)
     model.set_rng(proxy)
     fail_rng = random.Random(rng.randrange(2 ** 32))
     prev = None
     for sweep_no in range(spec["sweeps"]):
+        if sweep_no == 1 and spec.get("n0") is not None and N < len(spec["rows"]):
+            # second instalment, no reset
+            try:
+                model.add_observations(build_screen(spec, spec["rows"][N:], spec["obs"][N:]))
+            except Exception as e:      # noqa: BLE001
+                fail("interaction sampler: a second add_observations raised", "%s: %s" % (type(e).__name__, str(e)[:200]), "accepted", "C08I:add-observations-raised")
+                return
+            screen = build_screen(spec, spec["rows"], spec["obs"])
+            cur = current(len(spec["rows"]))
+            if cur is None:
+                return
+            rows, N, data = cur
+            y, cl, d1, d2 = data
+            prev = None
+            fresh, _ = ibuild(spec)
+            if bookkeeping_differs(bookkeeping(w), bookkeeping(fresh.wrapped_model)):
+                fail("interaction sampler: bookkeeping after instalments differs from a single add_observations", "differs", "equal", "C08:instalments-state")
+            res.count("class.inter.instalments.add-step-add-step")
         if spec["perturb"] and sweep_no == 0:
             iperturb(w, rng, N)
         before = isnap(w)
@@ -1383,6 +1502,27 @@ def irun_case(spec, res, iqueue):
     res.traces_validated += 1
 
 
+def inter_class_specs(seed):
+    rng = random.Random(seed)
+    sbf = [[0, 0, 1], [1, 1, 2], [0, 2, 0], [1, 0, 2], [0, 1, 0], [1, 2, 1], [0, 1, 2], [1, 2, 0]]
+    out = []
+
+    def mk(name, nC, nT, D, rows, perturb, **kw):
+        sp = {"stream": "inter", "iclass": name, "case_seed": seed, "nC": nC, "nT": nT, "D": D, "rows": [list(r) for r in rows],
+              "obs": [round(0.02 + 0.96 * rng.random(), 6) for _ in rows], "extra": [], "perturb": perturb, "wild": False, "fail_p": 0.0,
+              "max_sweeps": 3, "sweeps": 3}
+        sp.update(kw)
+        return sp
+    out.append(mk("instalments", 2, 3, 2, sbf, False, n0=3))
+    out.append(mk("instalments", 2, 3, 1, sbf, True, n0=5))
+    out.append(mk("row-order", 2, 3, 3, sbf, True))
+    wide = [[n % 2, n % 3, (n % 3 + 1 + (n // 3) % 2) % 3] for n in range(129)]
+    sp = mk("int-width.n_obs=129", 2, 3, 2, wide, True)
+    sp["sweeps"] = 1
+    out.append(sp)
+    return out
+
+
 def inter_stream(ctx, res, iqueue):
     max_sweeps = ctx.scale(3, 4, 4)
     rng = ctx.subrng("inter")
@@ -1395,6 +1535,10 @@ def inter_stream(ctx, res, iqueue):
         irun_case(spec, res, iqueue)
     for t in range(ctx.scale(3, 20, 8)):
         irun_case(igen_spec(rng.randrange(2 ** 48), 2, selfpair=True), res, iqueue)
+    # hardening classes on the interaction sampler, deterministic shapes
+    crng = random.Random(ctx.subrng("inter-class").randrange(2 ** 48))
+    for ci, spec in enumerate(inter_class_specs(crng.randrange(2 ** 48))):
+        irun_case(spec, res, iqueue)
 
 
 def mvn_stream(ctx, res, lines, cbs):
@@ -1512,7 +1656,12 @@ def replay(ctx, case, res):
         return
     if str(case.get("stream", "")).startswith("inter"):
         iqueue = []
-        irun_case(igen_spec(case["case_seed"], case.get("max_sweeps", 3), selfpair=case["stream"] == "inter-selfpair"), res, iqueue)
+        if case.get("iclass"):
+            cand = [sp for sp in inter_class_specs(case["case_seed"]) if sp["iclass"] == case["iclass"] and sp["D"] == case["D"] and sp.get("n0") == case.get("n0")]
+            ispec = cand[0]
+        else:
+            ispec = igen_spec(case["case_seed"], case.get("max_sweeps", 3), selfpair=case["stream"] == "inter-selfpair")
+        irun_case(ispec, res, iqueue)
         if ctx.driver is not None and iqueue:
             for q, out in zip(iqueue, ctx.driver.ask([q[0] for q in iqueue])):
                 line, c, log, trace, after, pred, N, sweep_no = q
